@@ -157,6 +157,22 @@ func (c *Ctx) scanTypeInv(ti *TypeInv) ([]*Obligation, int) {
 		fields[f] = true
 	}
 	var bad []string
+	// alias: a non-owner function lets the backing array of a slice-typed field out (the
+	// value it builds could then change, or be changed through, the owner's bookkeeping)
+	var alias []string
+	sliceField := func(v ssa.Value) (string, bool) {
+		u, isLoad := v.(*ssa.UnOp)
+		if !isLoad || u.Op != token.MUL {
+			return "", false
+		}
+		if _, isSlice := v.Type().Underlying().(*types.Slice); !isSlice {
+			return "", false
+		}
+		if T, f, ok := fieldOfLoad(v); ok && T == ti.Type && fields[f] {
+			return f, true
+		}
+		return "", false
+	}
 	var names []string
 	for n := range c.funcs {
 		names = append(names, n)
@@ -177,6 +193,9 @@ func (c *Ctx) scanTypeInv(ti *TypeInv) ([]*Obligation, int) {
 			for _, in := range b.Instrs {
 				switch i := in.(type) {
 				case *ssa.Store:
+					if f, ok := sliceField(i.Val); ok {
+						alias = append(alias, fmt.Sprintf("%s stores the slice %s.%s itself (not a copy) at %s", name, ti.Type, f, c.posStr(i.Pos())))
+					}
 					// *p = T{...}: a store of the whole struct writes every field
 					if pt, isPtr := i.Addr.Type().Underlying().(*types.Pointer); isPtr {
 						if _, isSt := pt.Elem().Underlying().(*types.Struct); isSt && namedStructOf(pt.Elem()) == ti.Type {
@@ -203,10 +222,39 @@ func (c *Ctx) scanTypeInv(ti *TypeInv) ([]*Obligation, int) {
 						bad = append(bad, fmt.Sprintf("%s updates map %s.%s at %s", name, T, f, c.posStr(i.Pos())))
 					}
 				case *ssa.Call:
+					if bi, isBi := i.Call.Value.(*ssa.Builtin); isBi {
+						// append(field, ...) may hand back the field's own backing array; append(x, field...),
+						// copy, len and cap read it
+						if bi.Name() == "append" && len(i.Call.Args) > 0 {
+							if f, ok := sliceField(i.Call.Args[0]); ok {
+								alias = append(alias, fmt.Sprintf("%s appends to the slice %s.%s itself at %s", name, ti.Type, f, c.posStr(i.Pos())))
+							}
+						}
+					} else {
+						for _, a := range i.Call.Args {
+							if f, ok := sliceField(a); ok {
+								alias = append(alias, fmt.Sprintf("%s hands the slice %s.%s itself to a call at %s", name, ti.Type, f, c.posStr(i.Pos())))
+							}
+						}
+					}
 					if bi, ok := i.Call.Value.(*ssa.Builtin); ok && (bi.Name() == "delete" || bi.Name() == "clear") {
 						if T, f, ok := fieldOfLoad(i.Call.Args[0]); ok && T == ti.Type && fields[f] {
 							bad = append(bad, fmt.Sprintf("%s deletes from %s.%s at %s", name, T, f, c.posStr(i.Pos())))
 						}
+					}
+				case *ssa.Slice:
+					if f, ok := sliceField(i.X); ok {
+						alias = append(alias, fmt.Sprintf("%s re-slices %s.%s (the result shares its backing array) at %s", name, ti.Type, f, c.posStr(i.Pos())))
+					}
+				case *ssa.Return:
+					for _, r := range i.Results {
+						if f, ok := sliceField(r); ok {
+							alias = append(alias, fmt.Sprintf("%s returns the slice %s.%s itself at %s", name, ti.Type, f, c.posStr(i.Pos())))
+						}
+					}
+				case *ssa.MakeInterface:
+					if f, ok := sliceField(i.X); ok {
+						alias = append(alias, fmt.Sprintf("%s boxes the slice %s.%s itself at %s", name, ti.Type, f, c.posStr(i.Pos())))
 					}
 				case *ssa.Alloc:
 					if !ti.Stable && !ti.WritersOnly && namedStructOf(i.Type()) == ti.Type {
@@ -236,7 +284,16 @@ func (c *Ctx) scanTypeInv(ti *TypeInv) ([]*Obligation, int) {
 		ob.Status = "failed"
 		ob.Model = strings.Join(bad, "; ")
 	}
-	return []*Obligation{ob}, n
+	obs := []*Obligation{ob}
+	if ti.WritersOnly {
+		oa := &Obligation{Name: kind + ti.Type + "#frame.alias[" + strings.Join(ti.Fields, ",") + "]", Kind: "frame.alias", Fn: ti.Type, Backend: "ssa-scan", Status: "ok"}
+		if len(alias) > 0 {
+			oa.Status = "failed"
+			oa.Model = strings.Join(alias, "; ")
+		}
+		obs = append(obs, oa)
+	}
+	return obs, n
 }
 
 // ---------------------------------------------------------------------------
